@@ -88,6 +88,28 @@ def main(argv):
         err = "internal error in the analyser:\n" + traceback.format_exc()
     known = R.load_known()
     kn, new = R.classify(rep, known) if rep is not None else ([], [])
+    # logic moved into a new helper that is too complex to inline: a failed obligation inside (or about) such a function is
+    # "cannot decide", not a violation
+    if new and ctx is not None and ctx.repo.opaque_callers:
+        keep = []
+        undecided = []
+        for o in new:
+            fq = None
+            if o.loc and ":" in o.loc:
+                rel, _, ln = o.loc.partition(":")
+                try:
+                    fq = ctx.repo.function_at(rel, int(ln))
+                except ValueError:
+                    fq = None
+            if fq is not None and fq in ctx.repo.opaque_callers:
+                undecided.append((o, fq))
+            else:
+                keep.append(o)
+        if undecided:
+            new = keep
+            msg = "; ".join("%s [%s] in %s, which delegates to the new helper(s) %s that could not be inlined" % (
+                o.rule, o.key[:60], fq.split(".", 2)[-1], [h.split(".")[-1] for h in ctx.repo.opaque_callers[fq]]) for o, fq in undecided[:4])
+            err = (err + "; " if err else "") + "cannot decide: " + msg
     if err is not None and not new:
         P("ANALYSIS-ERROR property=%s %s" % (pid, err))
         _error_evidence(pid, tier, seed, root, err.splitlines()[-1], evpath, t0)
